@@ -174,6 +174,13 @@ where
                 push(&li, "initial", -1, m.len() as i32, 0);
                 m.nonincremental_fold(acc, |acc, (k, v)| acc + weight(*k, *v))
             };
+            // both construction paths of the builder: `new().add().remove()` for the plain
+            // variant, `new_add_remove()` for the others
+            if !update && !initial {
+                let fold = ClosureFold::new::<M, i32, i32, i64>().add(add).remove(remove).revert_to_init_when_empty(revert);
+                let out: Incr<i64> = input.incr_unordered_fold_with(FOLD_INIT, fold);
+                return finish(state, log, setters, out, via, conv_num);
+            }
             let base = ClosureFold::new_add_remove(add, remove);
             let out: Incr<i64> = match (update, initial) {
                 (false, false) => input.incr_unordered_fold_with(FOLD_INIT, base.revert_to_init_when_empty(revert)),
